@@ -794,6 +794,19 @@ func NewRand(seed uint64) *Rand { x := &Rand{}; x.r.seed(seed ^ 0xA5A5A5A55A5A5A
 func (x *Rand) Intn(n int) int  { return x.r.intn(n) }
 func (x *Rand) Uint64() uint64  { return x.r.next() }
 func (x *Rand) Bool() bool      { return x.r.next()&1 == 1 }
+
+// Perm returns a seeded permutation of 0..n-1 (Fisher-Yates).
+func (x *Rand) Perm(n int) []int {
+	p := make([]int, n)
+	for i := range p {
+		p[i] = i
+	}
+	for i := n - 1; i > 0; i-- {
+		j := x.r.intn(i + 1)
+		p[i], p[j] = p[j], p[i]
+	}
+	return p
+}
 func (x *Rand) Chance(num, den int) bool {
 	return x.r.intn(den) < num
 }
